@@ -92,6 +92,55 @@ example : splitUnEqualIter [1] 0 0 0 8 false [((1 : Int), (10 : Int)), (2, 20), 
 
 end
 
+/-! ### ranks of format "U" -/
+
+section
+variable {ν : Type} [DecidableEq ν]
+
+/-- what a rank of format "U" presents is ascending (every coordinate of the active range once), so
+    all the theorems of this file apply to it -/
+theorem presentU_sorted (dflt : ν) (d : Nat) (as ae : Int) (f : Tree Int ν (d + 1)) :
+    Sorted (presentU dflt d as ae f) := by
+  unfold presentU Sorted
+  rw [List.pairwise_map]
+  exact List.pairwise_lt_range.imp (fun h => by simp only; omega)
+
+theorem presentFmt_sorted (fmtU : Bool) (dflt : ν) (d : Nat) (as ae : Int) (f : Tree Int ν (d + 1))
+    (hf : Sorted (show List (Int × Tree Int ν d) from f)) : Sorted (presentFmt fmtU dflt d as ae f) := by
+  unfold presentFmt
+  split
+  · split
+    · exact List.Pairwise.nil
+    · exact presentU_sorted dflt d as ae f
+  · exact List.Pairwise.sublist List.filter_sublist hf
+
+end
+
+section
+variable {π : Type}
+
+/-- **every kind of split, boundaries from the occupancy, partitions from what the rank presents**
+    (the two coincide for format "C"; for format "U" the rank presents every coordinate of its active
+    range): the loops compute the declarative result -/
+theorem split_spec_on (op : SplitOp) (pre post as ae : Int) (rel : Bool) (occ elems : Fib Int π)
+    (hop : match op with
+      | .uniform step => 0 < step ∧ 0 ≤ pre ∧ 0 ≤ post
+      | .nonuniform S => S.Pairwise (· < ·)
+      | _ => True)
+    (hact : as < ae) (hocc : Sorted occ) (hsorted : Sorted elems) :
+    splitIterOn op pre post as ae rel occ elems = some (specIterOn op pre post as ae rel occ elems) := by
+  cases op with
+  | uniform step => exact uniform_spec step pre post as ae rel elems hop.1 hact hop.2.1 hop.2.2 hsorted
+  | nonuniform S => exact nonuniform_spec S pre post as ae rel elems hop hsorted
+  | equal step =>
+    obtain ⟨h1, _⟩ := bounds_ok as ae occ hocc hact _ (equalBounds_sublist step as (iterActive as ae occ))
+    exact nonuniform_spec _ pre post as ae rel elems h1 hsorted
+  | unequal sizes =>
+    obtain ⟨h1, _⟩ := bounds_ok as ae occ hocc hact _ (unequalBounds_sublist sizes as (iterActive as ae occ))
+    exact nonuniform_spec _ pre post as ae rel elems h1 hsorted
+
+end
+
 /-! ### what the specifications say -/
 
 section
@@ -527,6 +576,9 @@ example := active_clip 4 1 1 1 7 exF (by decide) (by decide) ⟨4, [(5, 50), (6,
 example := active_contains 4 1 7 exF (by decide) ⟨4, [(5, 50), (6, 60)], 4, 7⟩ (by decide)
 example := active_clip_nonuniform [0, 3, 7] 0 0 1 8 exF (by decide) (by decide) ⟨0, [(1, 10), (2, 20)], 1, 3⟩ (by decide)
 example := resplit_tiles 4 2 0 9 exF (by decide) (by decide) exF_sorted
+example := split_spec_on (.equal 2) 1 1 0 9 false exF (presentU (0 : Int) 0 0 9 (show Tree Int Int 1 from exF)) trivial (by decide) exF_sorted (presentU_sorted _ _ _ _ _)
+example : (presentU (0 : Int) 0 0 4 (show Tree Int Int 1 from [((1 : Int), (10 : Int))])) =
+    ([(0, 0), (1, 10), (2, 0), (3, 0)] : List (Int × Int)) := by rfl
 example := resplit_tiles_relative 4 2 0 9 exF (by decide) (by decide) exF_sorted
 example := truediv_parts 9 2 false exF (by decide) (by decide)
 example := floordiv_parts 5 2 0 9 false exF (by decide) (by decide)
